@@ -1,0 +1,16 @@
+//go:build !verif
+
+package swap
+
+import "time"
+
+// Verification hooks (build tag `verif`). With the tag off these are identity
+// functions and the package behaves exactly as without them.
+
+func verifSkipSleep() bool { return false }
+
+func verifPayTiming(retryTime, interval time.Duration) (time.Duration, time.Duration) {
+	return retryTime, interval
+}
+
+func verifRetryInterval(d time.Duration) time.Duration { return d }
